@@ -9,7 +9,9 @@ mod chan;
 mod core;
 mod ioc;
 mod lock;
+mod logpipe;
 mod registry;
+mod rollsim;
 
 use crate::core::batch::Tier;
 use crate::core::check::Opts;
